@@ -8,8 +8,9 @@ tok := r <num> <den> | i <int> | v <value> <width> | s <hex> | T <width> | y <he
 ```
 * `hrtokens <term>`        : the printer model `HR.hrTokens`                                  → `ok <n> <tok>*n`
 * `hrparse <n> <tok>*n`    : the parser model `HR.hrParse`                                    → `ok <term>` | `err <class>`
-* `hrfrag <term>`          : is the term in the fragment of `Props.C09HR.hr_roundtrip`, and what the models make of it
-                             → `<true|false> <same|other|err>`  (`same`: `hrParse (hrTokens t) = ok t`)
+* `hrfrag <term>`          : is the term in the fragments `InHRFrag` / `InHRFragN` of `Props.C09HR`, and what the models
+                             make of it → `<true|false> <true|false> <same|regroup|other|err>`
+                             (`same`: `hrParse (hrTokens t) = ok t`; `regroup`: `= ok (regroup t)`, different from `t`)
 -/
 open PySMT PySMT.DriverLib PySMT.Wire PySMT.HR
 
@@ -52,9 +53,9 @@ def hrparseReq : P String := do
 def hrfragReq : P String := do
   let t ← term
   let r := match hrParse (hrTokens t) with
-    | .ok u => if u = t then "same" else "other"
+    | .ok u => if u = t then "same" else if u = regroup t then "regroup" else "other"
     | .error _ => "err"
-  return s!"{inHRFrag t} {r}"
+  return s!"{inHRFrag t} {inHRFragN t} {r}"
 
 def main : IO Unit := loop fun line =>
   let toks := Wire.tokens line
